@@ -471,7 +471,7 @@ TUNE_METRICS = ["mape", "mape", "default", "mae", "mse", "asym", "asym_gib", "as
 
 def gen_cases(rng, tier):
     cases = []
-    for _ in range(110 if tier == "quick" else 1500):
+    for _ in range(200 if tier == "quick" else 1500):
         fam, base, grid = rand_search(rng)
         sp, n = c07.rand_splitter(rng, allow_bad=rng.random() < 0.3)
         n = min(n, 22)
